@@ -221,6 +221,18 @@ def run_wire(ctx, prop):
                 n_ok += 1
         n_eval += 4 * len(idle_rows)
         stats["idle_connections"] = {"connections": len(idle_rows)}
+        long_rows = [r for r in _lines(out) if r.get("mode") == "long"]
+        for r in long_rows:
+            n_eval += r["answered_correctly"]
+            if r["first_bad"] >= 0:
+                ctx.violations.append({"what": "C12: on a long-lived RESP connection command #%d (0-based) is not answered with the library's decision (allowed, limit 1000, remaining %d): %s"
+                                               % (r["first_bad"], 999 - r["first_bad"], json.dumps(r["bad_wire"])[:200]),
+                                       "input": {"history": "ONE RESP connection, %d unit THROTTLE commands on one fresh key (max_burst 1000, 1 per 3600 s), %s; each command answered before the next is sent"
+                                                 % (r["n"], ["key of 1500 bytes (every command spans two reads of the server)", "every command written as two segments (cut 4..12 bytes in)", "whole commands"][r["variant"]]),
+                                                 "commands_answered_correctly_before": r["answered_correctly"]}})
+            else:
+                n_ok += 1
+        stats["long_connections"] = {"connections": len(long_rows), "commands": sum(r["answered_correctly"] for r in long_rows)}
     # ---------------------------------------------------------------- simultaneous burst across protocols (C09)
     if prop == "C09":
         ncases = 150 if quick else 2500
@@ -261,6 +273,29 @@ def run_wire(ctx, prop):
                             ctx.notes.append("stamp-disorder shortfall observed on the wire: " + json.dumps(inp)[:600])
         n_eval += bd["requests"]
         stats["burst"] = bd
+        # pipelining RESP client (one connection, the byte stream cut inside a later command or longer than one read), then other protocols
+        out = C.run_harness(ctx, bins["wire"], ["--server", server, "--mode", "pipeline", "--cases", 25 if quick else 400, "--seed", ctx.seed], timeout=2400)
+        prow = [r for r in _lines(out) if r.get("mode") == "pipeline"]
+        pl = {"pipelines": len(prow), "commands": 0, "cut_inside_a_command": 0, "longer_than_1024_bytes": 0}
+        for r in prow:
+            pl["commands"] += r["n"] + len(r["then"])
+            pl["cut_inside_a_command"] += r["cut"] > 0
+            pl["longer_than_1024_bytes"] += r["bytes"] > 1024
+            allw = r["resp_replies"] + r["then"]
+            inp = {"max_burst": r["b"], "history": "ONE RESP connection: %d unit THROTTLE commands on a fresh key (1 token per 3600 s) written as %s; all replies read; then %d unit requests over protocols %s (0=http,1=grpc), one after the other"
+                   % (r["n"], ("two segments, the first ending %d bytes into the %d-byte stream (inside a command)" % (r["cut"], r["bytes"])) if r["cut"] else "one write of %d bytes" % r["bytes"], len(r["then"]), r["then_protos"]),
+                   "resp_replies": r["resp_replies"], "extra_resp_replies": r["extra_replies"], "then": r["then"]}
+            want = [{"a": i < r["b"], "lim": r["b"], "rem": max(r["b"] - 1 - i, 0)} for i in range(len(allw))]
+            if len(r["resp_replies"]) != r["n"] or r["extra_replies"]:
+                ctx.violations.append({"what": "C09: a pipeline of %d commands on one RESP connection was answered with %d replies (every request is applied to the one limiter exactly once)"
+                                               % (r["n"], len(r["resp_replies"]) + r["extra_replies"]), "input": inp})
+            elif any(any(g.get(k) != v for k, v in w.items()) for g, w in zip(allw, want)):
+                ctx.violations.append({"what": "C09: the answers to a pipelined RESP client followed by other protocols are not those of ONE limiter applying every request exactly once, in order "
+                                               "(request i is allowed iff i < max_burst and reports remaining max_burst-1-i)", "input": inp})
+            else:
+                n_ok += 1
+        n_eval += pl["commands"]
+        stats["pipeline"] = pl
     # ---------------------------------------------------------------- hostile prefix then probes (C11)
     if prop == "C11":
         ncases = 40 if quick else 600
@@ -288,6 +323,12 @@ def run_wire(ctx, prop):
                 want2 = {"a": True, "lim": b, "rem": b - 2, "retry": 0}
                 if any(f.get(k) != v for k, v in want1.items()) or any(s2.get(k) != v for k, v in want2.items()):
                     bad = "after the hostile prefix a valid request on a fresh key (max_burst %d, 1 per 1000 s) is not answered with its correct decision on two fresh connections of protocol %d" % (b, p["proto"])
+                if "dry_first" in p:
+                    pd["probes"] += 2
+                    wd1 = {"a": True, "lim": 1, "rem": 0, "retry": 0}
+                    wd2 = {"a": False, "lim": 1, "rem": 0}
+                    if any(p["dry_first"].get(k) != v for k, v in wd1.items()) or any(p["dry_second"].get(k) != v for k, v in wd2.items()):
+                        bad = "after the hostile prefix a key with max_burst 1 is not answered allowed-then-denied on two fresh connections of protocol %d (the denial path no longer answers)" % p["proto"]
             sl = r.get("slow_client")
             if sl:
                 pd["slow_client_commands"] = pd.get("slow_client_commands", 0) + len(sl["answers"])
